@@ -1,6 +1,7 @@
 import BddVerif.Props.C04
 import BddVerif.Lemmas.AlgoEqApply
 import BddVerif.Lemmas.AlgoEqTernary
+import BddVerif.Lemmas.ExactWalkC04
 #print axioms B.Props.C04.fused2_spec
 #print axioms B.Props.C04.fused2_operand
 #print axioms B.Props.C04.and_consistent
@@ -19,3 +20,7 @@ import BddVerif.Lemmas.AlgoEqTernary
 #print axioms B.ternary_apply_eq_canon
 #print axioms B.Bdd_fused_ternary_flip_op_eq_model_driver
 #print axioms B.ternary_apply_panics_flip
+#print axioms B.ExactWalk.walk2_sound
+#print axioms B.ExactWalk.walk3_sound
+#print axioms B.ExactWalk.walk2_sound_driver
+#print axioms B.ExactWalk.walk3_sound_driver
